@@ -11,6 +11,7 @@ from ..gen import formats as F
 
 PROPERTY = "C14"
 LEVEL = "exploration"
+TECHNIQUE = 'model-based testing with generated edit histories (plain-data operation sequences shrunk by Hypothesis) against a list/dict reference model, invariants after every step; `naunet extend` driven in-process against a model pipeline'
 RULE = (
     "Generated edit histories (plain-data operation sequences, so they shrink and replay as one value) over a real "
     "Network and a list/dict reference model: add instance / add (string, format) / add from file / remove by index, "
